@@ -62,13 +62,13 @@ func runC13(r *core.Run) {
 		},
 		checkPack)
 
-	core.Clause(r, "pack-unpack-long", core.Opts{Rule: "position-dependent DNA strings (mixed case) of every length 0..200 and 1000, 4095..4098, 65535..65538 x 3 dst variants; non-trivial = all"},
+	core.Clause(r, "pack-unpack-long", core.Opts{Rule: "position-dependent DNA strings (mixed case) of EVERY length 0..1100 (thorough 0..9000) and 4095..4098, 65535..65538 x 3 dst variants; non-trivial = all"},
 		func(emit func(c13Pack) bool) {
 			var lens []int
-			for l := 6; l <= 200; l++ {
+			for l := 6; l <= core.Pick(r, 1100, 9000); l++ {
 				lens = append(lens, l)
 			}
-			lens = append(lens, 1000, 4095, 4096, 4097, 4098, 65535, 65536, 65537, 65538)
+			lens = append(lens, 4095, 4096, 4097, 4098, 65535, 65536, 65537, 65538)
 			for _, l := range lens {
 				b := make([]byte, l)
 				for i := range b {
